@@ -17,11 +17,20 @@
 #![deny(clippy::missing_safety_doc)]
 #![deny(clippy::undocumented_unsafe_blocks)]
 
+#[cfg(not(feature = "verif"))]
 use std::{
     alloc::{Layout, handle_alloc_error},
     ptr::NonNull,
     sync::{Arc, Mutex},
 };
+#[cfg(feature = "verif")]
+use std::{
+    alloc::{Layout, handle_alloc_error},
+    ptr::NonNull,
+    sync::Arc,
+};
+#[cfg(feature = "verif")]
+use crate::verif::sync::Mutex;
 
 use crate::value::{VTable, vtable::DropFn};
 
